@@ -162,9 +162,13 @@ DisProg(o, d, s, f, m, ctx) ==
        [] ctx = 2 -> << I(183, 0, 0, 0, 0) >> \o core \o << I(EXIT, 0, 0, 0, 0) >>
        [] ctx = 3 -> << I(LDDW, 1, 0, 0, 5), Second(6) >> \o core
        [] ctx = 4 -> << I(EXIT, 0, 0, 0, 0) >> \o core                   \* after an operand-less instruction
+       [] ctx = 5 -> core \o core                                        \* the same instruction twice
+       \* twice, the second time with another upper half (wide loads: same first slot, other second slot)
+       [] ctx = 6 -> IF o = LDDW THEN core \o << I(o, d, s, f, m), Second(IF m = 5 THEN 6 ELSE 5) >>
+                     ELSE core \o << I(o, d, s, f, IF m = 5 THEN 6 ELSE 5) >>
 DisD1(o) ==
   { <<"d1", DisProg(o, t[1], t[2], t[3], t[4], t[5])>> :
-      t \in { x \in Nib \X Nib \X DOffs \X DImms \X (1..4) :
+      t \in { x \in Nib \X Nib \X DOffs \X DImms \X (1..6) :
                 (o = CALL => x[2] \in {0, 1}) /\ Keep(x[1] + 3 * x[2] + 5 * (x[3] % 97) + 7 * (x[4] % 89) + 11 * x[5]) } }
 DisSeeds == IF "disasm" \in Fams THEN { <<"op", o>> : o \in DisOps } ELSE {}
 
